@@ -11,7 +11,8 @@ impl DltMessage {
 //@   sub R11 `text.push_str(itoa_buf.format(val));` => `vx_push_num(text, val);` *
 //@   sub R11 `text.push_str(&s);` => `vx_push_cow(text, &s);` *
 //@   sub R11 `text.push_str(_lit_);` => `vx_push_lit(text);` *
-//@   sub R3 `arg.payload_raw.try_into().unwrap()` => `vx_to_array(arg.payload_raw)` *
+//@   sub R3 `arg.payload_raw.try_into().unwrap()` => `vx_to_array(arg.payload_raw)` ?
+//@   sub R3 `_id_.try_into().unwrap()` => `vx_to_array($1)` ?
 //@   sub R11 `for (i, &c) in arg.payload_raw[0..arg.payload_raw.len()].iter().enumerate() { __ }` => `vx_write_hex(text, &arg.payload_raw[0..arg.payload_raw.len()])?;`
 //@   sub R11 `write!(text, _lit_, __)?;` => `vx_write_args(text, ($1))?;` *
 //@   sub R11 `write!(text, _lit_)?;` => `vx_write_lit(text)?;` *
